@@ -156,6 +156,23 @@ theorem C05_unpickled_traversals_transparent (F : Nat → LId → Option VId →
   exact ⟨C05_traversal_transparent (copyF r F) w' ffr kind uni start dir unk via hk',
     C05_search_transparent (copyF r F) w' skind uni start attr val hk'⟩
 
+/-- the harness's `reload` operation (the caller pickles / deep-copies the graph and goes on with the copy, naming
+    the copies as it named the originals) is the copy under the identity renaming: the same world -/
+theorem C05_reload_is_identity (w : World) :
+    w.copy ⟨id, id, id, id⟩ w.caching = w := by
+  have h1 : ∀ l : List (Option VId), l.map (Option.map id) = l := by
+    intro l; induction l with
+    | nil => rfl
+    | cons a t ih => rw [List.map_cons, ih]; cases a <;> rfl
+  have h2 : ∀ c : List (Key × List (Option VId)),
+      c.map (fun e => (e.1, (⟨id, id, id, id⟩ : Renaming).ans e.2)) = c := by
+    intro c; induction c with
+    | nil => rfl
+    | cons a t ih => rw [List.map_cons, ih]; simp only [Renaming.ans, h1]
+  cases w
+  simp only [World.copy, World.mk.injEq, id, true_and]
+  refine ⟨?_, ?_, ?_, ?_, ?_, ?_⟩ <;> funext x <;> first | exact List.map_id _ | exact h1 _ | exact h2 _ | simp
+
 /-- non-vacuity: a warm memo crosses the boundary (vertices 0, 1 swapped by the renaming, caching
     switched OFF while loading and ON again later) and is found, renamed, in the copy -/
 example :
